@@ -53,10 +53,18 @@ impl Prop for C09P {
                 }
             }
         }
+        for (c, r) in super::hugezst::shapes() {
+            v.push(format!("hugezst {}x{}", c, r));
+        }
         v
     }
     fn run_unit(&self, unit: &str, ctx: &mut Ctx) {
         let p: Vec<&str> = unit.split(' ').collect();
+        if p[0] == "hugezst" {
+            let (c, r) = super::hugezst::parse_shape(p[1]);
+            run_huge_zst(c, r, ctx);
+            return;
+        }
         let kind = p[0];
         let (c, r) = p[1].split_once('x').unwrap();
         let (c, r): (usize, usize) = (c.parse().unwrap(), r.parse().unwrap());
@@ -76,6 +84,7 @@ impl Prop for C09P {
          Every call sequence up to the depth bound over {next, next_back, nth(n), nth_back(n)} (n in 0..=rows+1 plus overflow-provoking values) cut two calls after exhaustion, on a fresh real iterator; len()/size_hint() after every call; \
          every proper prefix is additionally (i) closed with count, last, fold, rfold, for_each, rev-then-forward and (ii) followed by indexing [i] of the REMAINING sequence for every i in 0..=remaining+1 plus wrap-provoking huge i (in range => address of the i-th remaining cell, out of range => panic; IndexMut writes through for col_mut). \
          Results compared by ADDRESS with the ideal VecDeque; col_mut items are written through and the array must show exactly those writes; col(c)/col_mut(c) with c >= num_cols must panic. \
+         Arrays of () with close to usize::MAX cells and their windows: col(x) / col_mut(x) for the first, middle and last column must report exact len()/size_hint() and follow the ideal sequence by count for every sequence of up to three calls of next / next_back / nth(0..=2) / nth_back(0..=2), and - when at most four cells are left - jumps by huge n (including n below the slice length whose product with the stride overflows), count and last. \
          states = distinct (subject, column, front, back) cursor positions; transitions = iterator calls; traces_validated_against_impl = sequences executed."
             .into()
     }
@@ -117,6 +126,53 @@ fn run_out_of_range(kind: &str, c: usize, r: usize, ctx: &mut Ctx) {
                     }
                 },
             );
+        }
+    }
+}
+
+/// col(x) / col_mut(x) of huge arrays of () and of their windows (see props/hugezst.rs).
+fn run_huge_zst(c: usize, r: usize, ctx: &mut Ctx) {
+    use super::hugezst::{array, enc, run, sequences, windows};
+    for (s, e) in windows(c, r) {
+        let (wc, wr) = (e.0 - s.0, e.1 - s.1);
+        let mut cols = vec![0, wc - 1, wc / 2];
+        cols.sort_unstable();
+        cols.dedup();
+        for x in cols {
+            for seq in sequences(wr, &[c, wc]) {
+                for kind in 0..4u8 {
+                    if kind < 2 && (s, e) != ((0, 0), (c, r)) {
+                        continue;
+                    }
+                    let name = ["TooDee::col", "TooDee::col_mut", "view(..).col", "view_mut(..).col_mut"][kind as usize];
+                    ctx.case(
+                        || format!("TooDee<()> {}x{} window {:?}-{:?} {}({}): {}", c, r, s, e, name, x, enc(&seq)),
+                        |cs| {
+                            cs.nontrivial((c, r, s, e, x, kind, &seq));
+                            cs.outcome("huge-zst");
+                            cs.transitions = seq.len() as u64;
+                            cs.traces = 1;
+                            let mut t = array(c, r);
+                            let what = format!("{}({}) of the {}x{} window", name, x, wc, wr);
+                            let built = match kind {
+                                0 => crate::engine::guarded(|| run(t.col(x), wr, &seq, |_| None, &what, cs)),
+                                1 => crate::engine::guarded(|| run(t.col_mut(x), wr, &seq, |_| None, &what, cs)),
+                                2 => crate::engine::guarded(|| {
+                                    let v = t.view(s, e);
+                                    run(v.col(x), wr, &seq, |_| None, &what, cs)
+                                }),
+                                _ => crate::engine::guarded(|| {
+                                    let mut v = t.view_mut(s, e);
+                                    run(v.col_mut(x), wr, &seq, |_| None, &what, cs)
+                                }),
+                            };
+                            if let Err(m) = built {
+                                cs.fail("hugezst:panic", format!("building {} panicked: {}", what, m));
+                            }
+                        },
+                    );
+                }
+            }
         }
     }
 }
